@@ -45,7 +45,7 @@ package frugal
 // The stream reader takes exactly the 4-byte size and then the announced number of bytes from the
 // reader: what follows (the Thrift payload) is left untouched.
 //@ func lib.v0ProtocolMarshaler.unmarshalHeaders
-//@   ensures err == nil ==> result != nil
+//@   ensures err == nil ==> result != nil && fresh(result)
 //@   ensures err == nil ==> consumed(reader) == old(consumed(reader)) + 4 + size && size >= 0
 //@   ensures err == nil ==> ncalls("io.ReadFull") == 2
 //@   ensures err == nil ==> len(callarg("io.ReadFull", 0, 1)) == 4 && len(callarg("io.ReadFull", 1, 1)) == size
@@ -68,7 +68,7 @@ package frugal
 //@   modifies alloc
 
 //@ func lib.readHeader
-//@   ensures err == nil ==> result != nil
+//@   ensures err == nil ==> result != nil && fresh(result)
 //@   ensures err != nil ==> result == nil
 //@   modifies alloc, ghost(consumed, reader)
 
@@ -83,10 +83,38 @@ package frugal
 //@   ensures err == nil ==> result != nil
 //@   ensures err != nil ==> result == nil
 //@   ensures err == nil ==> typeis(result, "*lib.FContextImpl") && fresh(cast(result, "lib.FContextImpl")) && ncalls("lib.getNextOpID") == 1
+// C09: with H the header map read from the wire: the handler's request headers are H with the op id
+// replaced by a fresh one; its response headers are exactly the request's op id and (if non-empty) its
+// correlation id.
+//@   ensures err == nil ==> ncalls("lib.readHeader") == 1 && has(callret("lib.readHeader", 0, 0), "_opid")
+//@   ensures err == nil ==> forallkey(k, k != "_opid" ==> has(reqH(result), k) == has(callret("lib.readHeader", 0, 0), k) && (has(reqH(result), k) ==> reqH(result)[k] == callret("lib.readHeader", 0, 0)[k]))
+//@   ensures err == nil ==> has(reqH(result), "_opid") && reqH(result)["_opid"] == callret("lib.getNextOpID", 0, 0)
+//@   ensures err == nil ==> has(respH(result), "_opid") && respH(result)["_opid"] == callret("lib.readHeader", 0, 0)["_opid"]
+//@   ensures err == nil ==> forallkey(k, k != "_opid" && k != "_cid" ==> !has(respH(result), k))
+//@   ensures err == nil ==> has(respH(result), "_cid") == (has(callret("lib.readHeader", 0, 0), "_cid") && callret("lib.readHeader", 0, 0)["_cid"] != "")
+//@   ensures err == nil && has(respH(result), "_cid") ==> respH(result)["_cid"] == callret("lib.readHeader", 0, 0)["_cid"]
 //@   modifies *
+//@   loop 0 invariant ctx != nil && fresh(ctx) && fresh(ctx.requestHeaders) && fresh(ctx.responseHeaders) && ctx.requestHeaders != ctx.responseHeaders && ctx.requestHeaders != nil && ctx.responseHeaders != nil && headers != nil && headers != ctx.requestHeaders && headers != ctx.responseHeaders
+//@   loop 0 invariant dom(headers) == loopentry(dom(headers)) && vals(headers) == loopentry(vals(headers))
+//@   loop 0 invariant forallkey(k, has(ctx.requestHeaders, k) == (member(visited(headers), k) && k != "_opid")) && forallkey(k, has(ctx.requestHeaders, k) ==> ctx.requestHeaders[k] == headers[k])
+//@   loop 0 invariant forallkey(k, !has(ctx.responseHeaders, k))
 
+// C09: every header the server sent back except _opid becomes visible on the caller's context; the
+// context's own _opid response header and everything else it held is left alone. (Sequential
+// semantics: stated for a well-formed context no other goroutine is writing to during the call.)
+//@ pred ctxwf(x) = typeis(x, "*lib.FContextImpl") && respH(x) != reqH(x) && respH(x) != nil && reqH(x) != nil
 //@ func lib.FProtocol.ReadResponseHeader
+//@   exclusive_of ctx
+//@   ensures_exclusive result == nil ==> ncalls("lib.readHeader") == 1
+//@   ensures_exclusive result == nil && old(ctxwf(ctx)) ==> forallkey(k, k != "_opid" && has(callret("lib.readHeader", 0, 0), k) ==> has(respH(ctx), k) && respH(ctx)[k] == callret("lib.readHeader", 0, 0)[k])
+//@   ensures_exclusive result == nil && old(ctxwf(ctx)) ==> forallkey(k, k == "_opid" || !has(callret("lib.readHeader", 0, 0), k) ==> has(respH(ctx), k) == old(has(respH(ctx), k)) && respH(ctx)[k] == old(respH(ctx)[k]))
+//@   ensures_exclusive result == nil && old(ctxwf(ctx)) ==> dom(reqH(ctx)) == old(dom(reqH(ctx))) && vals(reqH(ctx)) == old(vals(reqH(ctx)))
 //@   modifies *
+//@   loop 0 invariant headers != nil && fresh(headers) && ctx == ctx0 && dom(headers) == loopentry(dom(headers)) && vals(headers) == loopentry(vals(headers))
+//@   loop 0 invariant_exclusive old(ctxwf(ctx)) ==> respH(ctx) == old(respH(ctx)) && reqH(ctx) == old(reqH(ctx))
+//@   loop 0 invariant_exclusive old(ctxwf(ctx)) ==> dom(reqH(ctx)) == old(dom(reqH(ctx))) && vals(reqH(ctx)) == old(vals(reqH(ctx)))
+//@   loop 0 invariant_exclusive old(ctxwf(ctx)) ==> forallkey(k, k != "_opid" && member(visited(headers), k) ==> has(respH(ctx), k) && respH(ctx)[k] == headers[k])
+//@   loop 0 invariant_exclusive old(ctxwf(ctx)) ==> forallkey(k, k == "_opid" || !member(visited(headers), k) ==> has(respH(ctx), k) == old(has(respH(ctx), k)) && respH(ctx)[k] == old(respH(ctx)[k]))
 
 // ---- registry / transports --------------------------------------------------------------------------
 
@@ -334,7 +362,7 @@ package frugal
 // ---- FContext (C17, C09) --------------------------------------------------------------------------------
 
 //@ guard lib.FContextImpl.mu protects requestHeaders, responseHeaders, ephemeralProperties
-//@   invariant self.requestHeaders != nil && self.responseHeaders != nil
+//@   invariant self.requestHeaders != nil && self.responseHeaders != nil && self.requestHeaders != self.responseHeaders
 
 // One counter, bumped atomically; the id is its decimal representation.
 //@ func lib.getNextOpID
@@ -395,23 +423,29 @@ package frugal
 // receiver itself.
 //@ func lib.FContextImpl.AddRequestHeader
 //@   noescape
+//@   ensures_exclusive c.responseHeaders == old(c.responseHeaders) && c.requestHeaders == old(c.requestHeaders)
+//@   ensures_exclusive forallkey(k, k != name ==> has(c.requestHeaders, k) == old(has(c.requestHeaders, k)) && c.requestHeaders[k] == old(c.requestHeaders[k]))
+//@   ensures_exclusive dom(c.responseHeaders) == old(dom(c.responseHeaders)) && vals(c.responseHeaders) == old(vals(c.responseHeaders))
 //@   ensures typeis(result, "*lib.FContextImpl") && cast(result, "lib.FContextImpl") == c
 //@   ensures has(c.requestHeaders, name) && c.requestHeaders[name] == value
 //@   modifies mapof(c.requestHeaders), alloc
 
 //@ func lib.FContextImpl.AddResponseHeader
 //@   noescape
+//@   ensures_exclusive c.responseHeaders == old(c.responseHeaders) && c.requestHeaders == old(c.requestHeaders)
+//@   ensures_exclusive forallkey(k, k != name ==> has(c.responseHeaders, k) == old(has(c.responseHeaders, k)) && c.responseHeaders[k] == old(c.responseHeaders[k]))
+//@   ensures_exclusive dom(c.requestHeaders) == old(dom(c.requestHeaders)) && vals(c.requestHeaders) == old(vals(c.requestHeaders))
 //@   ensures typeis(result, "*lib.FContextImpl") && cast(result, "lib.FContextImpl") == c
 //@   ensures has(c.responseHeaders, name) && c.responseHeaders[name] == value
 //@   modifies mapof(c.responseHeaders), alloc
 
 //@ func lib.FContextImpl.CorrelationID
 //@   noescape
+//@   ensures_exclusive result == ite(has(c.requestHeaders, "_cid"), c.requestHeaders["_cid"], "")
 //@   ensures result == c.requestHeaders["_cid"] || (!has(c.requestHeaders, "_cid") && result == "")
 
 //@ func lib.setResponseOpID
-//@   noescape
-//@   modifies *
+//@   inline
 
 //@ iface lib.FContextWithEphemeralProperties.Clone
 //@   same_as lib.FContextImpl.Clone
@@ -498,3 +532,37 @@ package frugal
 //@   modifies *
 //@   loop 0 invariant len(argValues) == len(args) && args == args0 && 0 - 1 <= rangeindex && rangeindex <= len(args)
 //@   loop 1 invariant len(results) == len(returnValues) && 0 - 1 <= rangeindex && rangeindex <= len(returnValues)
+
+// ---- request context on the wire (C09) -----------------------------------------------------------------
+
+// What goes on the wire is exactly the context's own header map.
+//@ func lib.FProtocol.WriteRequestHeader
+//@   ensures ncalls("lib.FContext.RequestHeaders") == 1 && ncalls("lib.FProtocol.writeHeader") == 1
+//@   ensures callarg("lib.FProtocol.writeHeader", 0, 1) == callret("lib.FContext.RequestHeaders", 0, 0)
+//@   ensures result == callret("lib.FProtocol.writeHeader", 0, 0)
+//@   modifies *
+
+//@ func lib.FProtocol.WriteResponseHeader
+//@   ensures ncalls("lib.FContext.ResponseHeaders") == 1 && ncalls("lib.FProtocol.writeHeader") == 1
+//@   ensures callarg("lib.FProtocol.writeHeader", 0, 1) == callret("lib.FContext.ResponseHeaders", 0, 0)
+//@   ensures result == callret("lib.FProtocol.writeHeader", 0, 0)
+//@   modifies *
+
+// The timeout travels as whole milliseconds in the _timeout header.
+//@ func lib.FContextImpl.SetTimeout
+//@   noescape
+//@   ensures has(c.requestHeaders, "_timeout") && c.requestHeaders["_timeout"] == fmtint(timeout / 1000000, 10)
+//@   modifies mapof(c.requestHeaders), alloc
+
+//@ func lib.FContextImpl.Timeout
+//@   noescape
+//@   ensures_exclusive has(c.requestHeaders, "_timeout") && okint(c.requestHeaders["_timeout"]) && 0 - 9000000000000 <= parseint(c.requestHeaders["_timeout"]) && parseint(c.requestHeaders["_timeout"]) <= 9000000000000 ==> result == parseint(c.requestHeaders["_timeout"]) * 1000000
+//@   ensures_exclusive !has(c.requestHeaders, "_timeout") ==> result == defaultTimeout
+
+// A positive timeout becomes the deadline of the context handed to Thrift.
+//@ func lib.ToContext
+//@   ensures ncalls("lib.FContext.Timeout") == 1
+//@   ensures callret("lib.FContext.Timeout", 0, 0) > 0 ==> ncalls("context.WithTimeout") == 1
+//@   ensures callret("lib.FContext.Timeout", 0, 0) > 0 ==> callarg("context.WithTimeout", 0, 1) == callret("lib.FContext.Timeout", 0, 0)
+//@   ensures callret("lib.FContext.Timeout", 0, 0) <= 0 ==> ncalls("context.WithTimeout") == 0
+//@   modifies *
